@@ -7,7 +7,10 @@ walk_descents/evaluate_descent through hook H1 and the deterministic scheduler h
 real threads' sequence of pthread operations must be the one the model predicts and the result must equal both
 the model's and a sequential reference computed from the same numbers; (b) oracle = the property itself:
 free-running walk_descents, nnls_normal_block3 and spline fits under OMP_NUM_THREADS in {1,2,3,4,8,16,32}
-must terminate (timeout) with bitwise identical results; (c) thorough: the same free-running under TSan;
+must terminate (timeout) with bitwise identical results; on every call of walk_descents (forced or free-running) which thread
+calls CHOLMOD with which cholmod_common is observed through ld --wrap and must be what the model says (D15, fixed: one common per
+worker, started and finished by the coordinator, balanced at finish, the caller's common untouched); (c) thorough: the same
+free-running under TSan, where a plain counter per cholmod_common stands in for the (uninstrumented) CHOLMOD accesses;
 (d) test of the termination bound B0(N, n_alpha) of C12_terminates_from_init: against the exact longest schedule of the
 extracted model for small configurations, and on every generated schedule."""
 import collections, glob, json, os, re, subprocess, sys, time
@@ -17,6 +20,7 @@ PROPERTIES_FILE = "Properties_C12"
 ASSUMPTIONS = [
     "pthread mutex / condition variable / create / join semantics as in POSIX (written out in Handshake.v: step, spurious); sequential consistency for race-free executions",
     "the worker's numeric computation is abstracted to 'worker j, told to use trial step a, leaves outputs for a'; residual order enters only through the abstract relation lt",
+    "CHOLMOD calls are abstracted to 'writes the cholmod_common it is given' (status and allocation statistics live there); which thread calls CHOLMOD with which common is observed on the real code on every walk_descents of this run (ld --wrap) and compared with the model's access sets (worker j: commons[j] only; coordinator: all of them before the first create and after the last join)",
     "a model step is one pthread call plus adjacent straight-line code under an unchanged mutex state; the j-loops under the mutex and the selection loop are single steps whose access sets are the union (sound for race freedom because the union is what is checked)",
     "OS fairness is not modelled: theorems say some thread can always move (no deadlock) and that an execution makes at most B0(N, n_alpha) thread steps plus two per spurious wake-up (so every maximal execution with finitely many spurious wake-ups returns); that the OS eventually runs some enabled thread and delivers only finitely many spurious wake-ups is assumed; sched_setaffinity failures are ignored",
     "Handshake.v tied to cholesky_solve.c by forcing model-generated schedules on the real code on this run's cases (operation sequence + result compared exactly)",
@@ -24,11 +28,13 @@ ASSUMPTIONS = [
 TRUSTED_EXTRA = [
     "harness/C12_sched.cpp (cooperative scheduler implementing mutex/condvar semantics itself) and hook header photospline_verif_sched.h",
     "extract/handshake_driver.ml (schedule generation, exhaustive exploration of small configurations used as a test only)",
-    "ThreadSanitizer (thorough tier) for the free-running race check",
+    "ThreadSanitizer (thorough tier) for the free-running race check; AddressSanitizer/LeakSanitizer (thorough tier) for the release of the per-worker commons",
+    "GNU ld --wrap of cholmod_l_{start,finish,allocate_dense,copy_dense,sdmult,free_dense} in the C12 harness to attribute every CHOLMOD call made inside walk_descents to (thread, cholmod_common) without changing the library",
 ]
 THREADS = [1, 2, 3, 4, 8, 16, 32]
 SRC_FLAGS = ["-I" + os.path.join(REPO, "src/fitter"), "-pthread"]
 HSRCS = ["C12_harness.cpp", "C12_sched.cpp"]
+WRAPS = ["-Wl,--wrap=cholmod_l_" + f for f in ("start", "finish", "allocate_dense", "copy_dense", "sdmult", "free_dense")]
 
 def H(v):
     return hexd(float(v))
@@ -78,7 +84,7 @@ def parse_fields(line, keys):
     return out
 
 REFK = ("na", "alpha", "res", "chosen", "feasible", "x", "H1", "residual")
-OUTK = ("ret", "x", "H1", "residual", "calcs", "consumed", "steps", "drift", "trace")
+OUTK = ("ret", "x", "H1", "residual", "calcs", "consumed", "steps", "drift", "commons", "trace")
 
 def run_sched_cases(exe, lines, timeout_each=20.0, max_hangs=3):
     """runs case lines through `harness sched`; restarts after a process-ending failure (DEADLOCK etc.) or a hang.
@@ -179,6 +185,28 @@ def check_termination_bound(mexe, configs, out, cov):
         out.violation("C12:model:termination-bound", "the model driver did not answer every `longest` request", {"kind": "model", "no_failing_input_found": True,
                       "broken": "extract/handshake_driver longest", "stderr": p.stderr[-500:]})
     cov["longest_schedule_vs_bound"] = table
+def check_commons(o, T, payload, out, cov, seen):
+    """D15 (fixed): which thread called CHOLMOD with which cholmod_common during this walk_descents (harness, cw_*).
+    Model (Handshake.acc, shared_common = false): the coordinator starts T commons before the first pthread_create and finishes
+    them after the last join, worker j uses its own only, the caller's common is not used, and every common is balanced
+    (malloc_count = memory_inuse = 0) when it is finished.  Works under forced schedules too: attribution is by thread, not by timing."""
+    if "commons" not in o:
+        return
+    started, finished, unbal, shared, on_callers, unknown = map(int, o["commons"])
+    cov["commons_checked_calls"] = cov.get("commons_checked_calls", 0) + 1
+    def report(sig, what):
+        if sig not in seen:
+            seen.add(sig)
+            out.violation(sig, what, dict(payload, commons=dict(started=started, finished=finished, unbalanced=unbal, shared_by_workers=shared,
+                                                                 workers_on_callers_common=on_callers, unknown=unknown), threads=T))
+    if shared:
+        report("C12:race-cholmod-common", "two different worker threads call CHOLMOD with the same cholmod_common (%d calls, %d workers)" % (shared, T))
+    if unbal:
+        report("C12:cholmod-stats-unbalanced", "%d per-worker cholmod_common(s) with non-zero malloc_count / memory_inuse when finished (%d workers)" % (unbal, T))
+    if started != T or finished != T or on_callers or unknown:
+        report("C12:common-ownership", "use of cholmod_commons in walk_descents differs from the model: %d started / %d finished for %d workers, "
+               "%d worker calls through the caller's common, %d calls through a common not started by the coordinator" % (started, finished, T, on_callers, unknown))
+
 def check_forced(exe, mexe, datas, plan, out, cov, fixed_flag="1"):
     """plan: list of (data_index, N, mode_request_suffix).  Forces every generated schedule."""
     # phase A: sequential reference for each data set (free-running N=1 also serves as the first oracle run)
@@ -203,6 +231,7 @@ def check_forced(exe, mexe, datas, plan, out, cov, fixed_flag="1"):
             cov["model_explored_states"] = cov.get("model_explored_states", 0) + int(info["states"])
             cov["model_explored_transitions"] = cov.get("model_explored_transitions", 0) + int(info["edges"])
             bad = {k: int(info[k]) for k in ("deadlocks", "races", "early_reads", "badresults") if int(info[k])}
+            cov["model_old_shape_races_on_shared_common"] = cov.get("model_old_shape_races_on_shared_common", 0) + int(info.get("races_common", 0))
             if bad and fixed_flag == "1":
                 out.violation("C12:model:explore", "exhaustive exploration of the model for N=%d n_alpha=%d finds %s (a theorem of Properties_C12 would be false)" % (N, na, bad),
                               {"kind": "model", "request": [r for r in reqs if r.startswith(rid + " ")][0], "info": info})
@@ -253,6 +282,7 @@ def check_forced(exe, mexe, datas, plan, out, cov, fixed_flag="1"):
         if o["x"] != ref["x"] or o["H1"] != ref["H1"] or o["ret"] != ref["feasible"] or (o["ret"] == ["1"] and o["residual"] != ref["residual"]):
             payload["ref"] = ref
             out.violation("C12:walk_descents:result", "result under a forced schedule differs from the sequential reference", payload)
+        check_commons(o, N, payload, out, cov, cov.setdefault("_seen_commons", set()))
     cov["forced_schedules"] = cov.get("forced_schedules", 0) + len(expect)
     cov["forced_steps"] = cov.get("forced_steps", 0) + nsteps
     cov.setdefault("_traces", set()).update(traces)
@@ -285,13 +315,16 @@ def check_free(exe, datas, threads, reps, out, cov, tag="free", timeout_each=20.
             # statistics must be unchanged afterwards.  A drift with >= 2 workers = lost update of malloc_count /
             # memory_inuse by concurrent cholmod_l_allocate_dense / copy_dense / free_dense (D15)
             drift[T] = drift.get(T, 0) + 1
-            if T >= 2 and "C12:race-cholmod-common" not in seen:
+            workers_on_callers = int(o["commons"][4]) if "commons" in o else 1      # a drift is a lost update only if workers use the caller's common at all
+            if T >= 2 and workers_on_callers and "C12:race-cholmod-common" not in seen:
                 seen.add("C12:race-cholmod-common")
                 payload.update({"drift_malloc_count_memory_inuse": o["drift"], "threads": T})
                 out.violation("C12:race-cholmod-common", "data race on the shared cholmod_common: allocation statistics drift by %s after a walk_descents with %d workers" % (o["drift"], T), dict(payload))
-            elif T == 1 and "C12:cholmod-stats-unbalanced" not in seen:
+            elif (T == 1 or not workers_on_callers) and "C12:cholmod-stats-unbalanced" not in seen:
                 seen.add("C12:cholmod-stats-unbalanced")
-                out.violation("C12:cholmod-stats-unbalanced", "cholmod_common allocation statistics not restored by walk_descents with ONE worker (not a race): %s" % o["drift"], dict(payload))
+                out.violation("C12:cholmod-stats-unbalanced", "the caller's cholmod_common allocation statistics not restored by walk_descents (%d worker(s); not a race: %s): %s"
+                              % (T, "one worker" if T == 1 else "no worker uses the caller's common", o["drift"]), dict(payload))
+        check_commons(o, T, payload, out, cov, seen)
         if o["x"] != ref["x"] or o["H1"] != ref["H1"] or o["ret"] != ref["feasible"] or (o["ret"] == ["1"] and o["residual"] != ref["residual"]):
             payload.update({"impl": o, "ref": ref})
             out.violation("C12:walk_descents:result", "free-running result differs from the sequential reference with %s threads" % cid.split("_")[1], payload)
@@ -378,7 +411,7 @@ def tsan_summaries(stderr):
     return reps
 
 def check_tsan(rng, datas, out, cov):
-    exe = build_harness("C12_harness_tsan", HSRCS, flavour=["-O1", "-g", "-fsanitize=thread", "-fno-omit-frame-pointer"], fitter=True, extra_flags=SRC_FLAGS)
+    exe = build_harness("C12_harness_tsan", HSRCS, flavour=["-O1", "-g", "-fsanitize=thread", "-fno-omit-frame-pointer"], fitter=True, extra_flags=SRC_FLAGS, libs=WRAPS)
     env = dict(os.environ, TSAN_OPTIONS="halt_on_error=0 report_signal_unsafe=0 history_size=4")
     lines = []
     for i, d in enumerate(datas):
@@ -391,7 +424,7 @@ def check_tsan(rng, datas, out, cov):
     for kind, frames in reps:
         if kind != "data race":
             sig = "C12:tsan:" + kind.replace(" ", "-")
-        elif any(f.startswith("cholmod_") or f.startswith("SuiteSparse_") for f in frames[:6]):
+        elif any("cholmod_" in f or f.startswith("SuiteSparse_") or f == "cw_touch" for f in frames[:6]):   # incl. __wrap_cholmod_l_* / cw_touch: the proxy counter of a common
             sig = "C12:race-cholmod-common"
         else:
             ours = [f for f in frames if f in ("evaluate_descent", "walk_descents", "calc_residual")]
@@ -403,9 +436,31 @@ def check_tsan(rng, datas, out, cov):
                       {"kind": "tsan", "lines": lines[:8], "frames": frames[:12]})
     return len(lines)
 
+def check_asan(rng, datas, out, cov):
+    """thorough: free-running walk_descents and nnls_normal_block3 in an ASan+UBSan+LSan build: the per-worker commons, their
+    workspace and the trial vectors allocated through them must all be released (cholmod_l_finish by the coordinator)"""
+    exe = build_harness("C12_harness_asan", HSRCS, flavour="checked", fitter=True, extra_flags=SRC_FLAGS, libs=WRAPS)
+    env = dict(os.environ, ASAN_OPTIONS="detect_leaks=1:abort_on_error=0:halt_on_error=1", UBSAN_OPTIONS="print_stacktrace=1")
+    lines = [case_line("a%d_%d" % (i, T), d, T, [-1]) for i, d in enumerate(datas) for T in (1, 2, 3, 8)]
+    nn = ["case qa%d n %d m %d seed %d corr %.2f threads 1 2 5" % (k, 6 + rng.below(10), 22, rng.below(1 << 30), rng.below(4) * 0.3) for k in range(12)]
+    runs = 0
+    for mode, ls in (("sched", lines), ("nnls", nn)):
+        p = subprocess.run([exe, mode], input="\n".join(ls) + "\n", stdout=subprocess.PIPE, stderr=subprocess.PIPE, text=True, timeout=900, env=env)
+        done = sum(1 for l in p.stdout.split("\n") if l.startswith(("out ", "nnlsend ")))
+        runs += done
+        m = re.search(r"ERROR: (AddressSanitizer|LeakSanitizer): ([\w-]+)|(runtime error: [^\n]*)", p.stderr)
+        if m or p.returncode != 0:
+            kind = (m.group(2) or "leak") if m and m.group(1) else ("ubsan" if m else "exit-%d" % p.returncode)
+            if m and m.group(1) == "LeakSanitizer": kind = "leak"
+            frames = re.findall(r"#\d+ 0x[0-9a-f]+ in (\S+)", p.stderr)[:12]
+            out.violation("C12:sanitizer:%s:%s" % (mode, kind), "sanitizer report in free-running %s (%s)" % (mode, " <- ".join(frames[:6]) or p.stderr[-300:]),
+                          {"kind": "asan", "mode": mode, "lines": ls[:8], "frames": frames, "stderr_tail": p.stderr[-1500:]})
+    cov["asan_lsan_runs"] = runs
+    return runs
+
 # ---------------------------------------------------------------------------------------------- entry
 def build_all():
-    exe = build_harness("C12_harness", HSRCS, flavour="faithful", fitter=True, extra_flags=SRC_FLAGS)
+    exe = build_harness("C12_harness", HSRCS, flavour="faithful", fitter=True, extra_flags=SRC_FLAGS, libs=WRAPS)
     mexe = build_extracted("handshake")
     return exe, mexe
 
@@ -456,6 +511,8 @@ def run(info, out):
             out.violation(c["signature"], "corpus regression: " + c["what"] + " — " + (g.get("fail") or "hang")[:200], payload)
         elif g.get("out") and (g["out"]["x"] != g["ref"]["x"] or g["out"]["ret"] != g["ref"]["feasible"]):
             out.violation("C12:walk_descents:result", "corpus case: wrong result", payload)
+        if g.get("out"):
+            check_commons(g["out"], int(c["line"].split()[3]), payload, out, cov, cov.setdefault("_seen_commons", set()))
     cov["corpus_cases"] = len(corpus)
 
     # 2. forced schedules from the model
@@ -488,8 +545,10 @@ def run(info, out):
                                threads=(list(range(1, 33)) if thorough else THREADS))
     # 4. TSan, free-running (thorough)
     ntsan = check_tsan(rng, datas[len(small):][:12], out, cov) if thorough else 0
+    # 5. ASan/UBSan/LSan, free-running (thorough)
+    ntsan += check_asan(rng, datas[len(small):][:12], out, cov) if thorough else 0
 
-    traces = cov.pop("_traces", set()); hist = cov.pop("_hist", {})
+    traces = cov.pop("_traces", set()); hist = cov.pop("_hist", {}); cov.pop("_seen_commons", None)
     chosen_hist = collections.Counter()
     for k, r in refs.items():
         if "ref" in r:
